@@ -121,6 +121,20 @@ func bufContent(g *G, p Value) (Struct, *Blob) {
 	return s, g.asBlob(s[0])
 }
 
+// Every bytes.Buffer has a backing identity: the slice handed out by Bytes() aliases the
+// buffer's array, and is overwritten when the buffer is written again after a Reset/Truncate(0)
+// (typically after the buffer went back to a pool and was taken out by somebody else). Reading
+// such a slice afterwards is a stale-buffer read.
+func (g *G) bufOverwrite(p *Value) {
+	r := g.run
+	if r.bufResetPending[p] {
+		r.bufResetPending[p] = false
+		if bk := r.bufGen[p]; bk != nil {
+			bk.gen++
+		}
+	}
+}
+
 func init() {
 	reg("bytes.NewBuffer", func(g *G, fr *Frame, fn *ssa.Function, a []Value) Value {
 		p := new(Value)
@@ -173,6 +187,7 @@ func init() {
 	write := func(g *G, fr *Frame, fn *ssa.Function, a []Value) Value {
 		s, cur := bufContent(g, a[0])
 		add := g.asBlob(a[1])
+		g.bufOverwrite(a[0].(*Value))
 		nb := blobConcat(g, cur, add)
 		if bk := g.run.bufBacking[a[0].(*Value)]; bk != nil {
 			bk.gen++
@@ -191,7 +206,17 @@ func init() {
 	})
 	reg("(*bytes.Buffer).Bytes", func(g *G, fr *Frame, fn *ssa.Function, a []Value) Value {
 		_, cur := bufContent(g, a[0])
-		return cur
+		p := a[0].(*Value)
+		if cur == nil || cur.bk != nil || g.run.bufBacking[p] != nil || len(cur.Segs) == 0 {
+			return cur
+		}
+		bk := g.run.bufGen[p]
+		if bk == nil {
+			g.run.nextObj++
+			bk = &Backing{id: g.run.nextObj}
+			g.run.bufGen[p] = bk
+		}
+		return &Blob{Segs: cur.Segs, bk: bk, bgen: bk.gen}
 	})
 	reg("(*bytes.Buffer).String", func(g *G, fr *Frame, fn *ssa.Function, a []Value) Value {
 		if p, _ := a[0].(*Value); p == nil {
@@ -207,11 +232,15 @@ func init() {
 	reg("(*bytes.Buffer).Reset", func(g *G, fr *Frame, fn *ssa.Function, a []Value) Value {
 		s, _ := bufContent(g, a[0])
 		s[0] = Slice(nil)
+		if g.run.bufGen[a[0].(*Value)] != nil {
+			g.run.bufResetPending[a[0].(*Value)] = true
+		}
 		return nil
 	})
 	reg("(*bytes.Buffer).ReadFrom", func(g *G, fr *Frame, fn *ssa.Function, a []Value) Value {
 		s, cur := bufContent(g, a[0])
 		content, err := g.readAllFrom(a[1].(Iface))
+		g.bufOverwrite(a[0].(*Value))
 		nb := blobConcat(g, cur, content)
 		if bk := g.run.bufBacking[a[0].(*Value)]; bk != nil {
 			bk.gen++
